@@ -57,9 +57,9 @@ Inductive kase :=
 | KWin (n ncb : nat) (flat shaped : iobs).
 Definition chk (k : kase) : bool :=
   match k with
-  | KLeaf d s p f g => let m := leaf_obs d s p in obs_eqb m (to_obs f) && obs_eqb m (to_obs g)
-  | KTree d SS p f g => let m := tree_obs d SS (tree_prices d p) in obs_eqb m (to_obs f) && obs_eqb m (to_obs g)
-  | KWin n ncb f g => let m := window_obs n ncb in obs_eqb m (to_obs f) && obs_eqb m (to_obs g)
+  | KLeaf d s p f g => let m := leaf_obs d s p in obs_agrees m (to_obs f) && obs_agrees m (to_obs g)
+  | KTree d SS p f g => let m := tree_obs d SS (tree_prices d p) in obs_agrees m (to_obs f) && obs_agrees m (to_obs g)
+  | KWin n ncb f g => let m := window_obs n ncb in obs_agrees m (to_obs f) && obs_agrees m (to_obs g)
   end.
 '''
 RULE = ''
